@@ -8,4 +8,4 @@ Extraction "c01_model.ml"
   C01.c01_ugrid_conn C01.c01_ugrid_conn_fixed C01.c01_topo_conn C01.c01_mpas_padded C01.c01_mpas_plain
   C01.c01_scrip C01.c01_exodus C01.c01_exodus_coords C01.c01_esmf
   C01.c01_fv C01.c01_geos C01.c01_icon C01.c01_icon_encode C01.c01_geo
-  C01.c01_wrap_all C01.c01_rd_run C01.c01_sniff C01.c01_encode C01.c01_std.
+  C01.c01_wrap_all C01.c01_rd_run C01.c01_faces_of C01.c01_wf_facesb C01.c01_mpas_encode C01.c01_esmf_encode C01.c01_scrip_encode C01.c01_ugrid_dims C01.c01_sniff C01.c01_encode C01.c01_std.
